@@ -696,10 +696,14 @@ impl Pool {
             }
         };
 
+        let mut shard_numbers = Vec::new();
+
         for (shard_idx, shard) in &self.shards {
             match shard_idx.parse::<usize>() {
-                Ok(_) => (),
-                Err(_) => {
+                Ok(shard_number) if shard_idx.bytes().all(|b| b.is_ascii_digit()) => {
+                    shard_numbers.push(shard_number)
+                }
+                _ => {
                     error!(
                         "Shard '{}' is not a valid number, shards must be numbered starting at 0",
                         shard_idx
@@ -708,6 +712,23 @@ impl Pool {
                 }
             };
             shard.validate()?;
+        }
+
+        // Clients select shards by number and the pool addresses them by position,
+        // so the numbers have to be exactly 0..n-1.
+        shard_numbers.sort_unstable();
+
+        if shard_numbers
+            .iter()
+            .enumerate()
+            .any(|(position, shard_number)| position != *shard_number)
+        {
+            error!(
+                "Shards must be numbered from 0 to {} without gaps or duplicates, got: {:?}",
+                self.shards.len().saturating_sub(1),
+                self.shards.keys()
+            );
+            return Err(Error::BadConfig);
         }
 
         for (option, name) in [
